@@ -457,8 +457,12 @@ class ManifestRecursiveLoader:
                 if not to_load:
                     break
 
-                manifests = pool.imap_unordered(
-                    self.manifest_loader, to_load, chunksize=16)
+                # collect all results first: if verification of any
+                # entry fails, none of this round's Manifests (which may
+                # include the very same file matched against a weaker
+                # duplicate entry) must be kept
+                manifests = list(pool.imap_unordered(
+                    self.manifest_loader, to_load, chunksize=16))
                 self.loaded_manifests.update(manifests)
 
     def find_timestamp(self):
